@@ -128,9 +128,9 @@ def axiom_audit(mods, names):
     text = out + err
     res, problems = {}, []
     # "'name' depends on axioms: [a, b]"  or "'name' does not depend on any axioms"
-    for m in re.finditer(r"'([^']+)' depends on axioms: \[([^\]]*)\]", text, re.S):
+    for m in re.finditer(r"'(\S+)' depends on axioms: \[([^\]]*)\]", text, re.S):
         res[m.group(1)] = [a.strip() for a in m.group(2).replace("\n", " ").split(",") if a.strip()]
-    for m in re.finditer(r"'([^']+)' does not depend on any axioms", text):
+    for m in re.finditer(r"'(\S+)' does not depend on any axioms", text):
         res[m.group(1)] = []
     for n in names:
         if n not in res:
